@@ -66,6 +66,16 @@ impl SLIT {
     /// Set the relative locality distance between two domains
     /// (10-254, 10 is the value from one node to itself).
     pub fn set_distance(&mut self, domain_a: usize, domain_b: usize, locality_value: u8) {
+        if domain_a == domain_b {
+            // A diagonal cell is a single byte; account for it only once.
+            let idx = domain_a + self.localities as usize * domain_a;
+            self.checksum.sub(self.entries[idx]);
+            self.checksum.add(locality_value);
+            self.header.checksum = self.checksum.value();
+            self.entries[idx] = locality_value;
+            return;
+        }
+
         let old_values = [
             self.entries[domain_a + self.localities as usize * domain_b],
             self.entries[domain_b + self.localities as usize * domain_a],
